@@ -62,6 +62,10 @@ func VerifConstructors() {
 		n := vExprSlot(p)
 		if n == nil {
 			anyNil = true
+		} else if n.NodeType == ast.TypeInExpr && (n.InExpr().LHS == nil || n.InExpr().RHS == nil) {
+			anyNil = true // a node with a nil child: the child's error is already recorded
+		} else if n.NodeType == ast.TypeParenExpr && n.ParenExpr().Param == nil {
+			anyNil = true
 		}
 		return n
 	}
